@@ -147,7 +147,7 @@ func truncToUint64(v float64) uint64 { return uint64(v) }
 //@   props C05 C19
 //@   requires iterOK(i)
 //@   ensures inv: implies(result1 == nil, iterOK(i)) && implies(result1 == nil && result0 != TypeNone, iterOK(dst))
-//@   invariant 0 0 <= i.off && i.off <= 1<<57
+//@   invariant 0 0 <= i.off && i.off <= 1<<57 && old(i.off)+old(i.addNext) <= i.off && len(i.tape.Tape) == len(old(i.tape.Tape))
 //@   decreases 0 len(i.tape.Tape) - i.off
 //@   nonnil dst
 //@   safe
@@ -156,7 +156,8 @@ func truncToUint64(v float64) uint64 { return uint64(v) }
 //@   props C05 C19
 //@   requires iterOK(i)
 //@   ensures inv: implies(result1 == nil, iterOK(i))
-//@   invariant 0 0 <= i.off && i.off <= 1<<57
+//@   ensures progress: implies(result1 == nil && result0 != TypeNone, i.off > old(i.off)+old(i.addNext) && len(i.tape.Tape) <= len(old(i.tape.Tape)) && len(i.tape.Tape) - i.off - i.addNext < len(old(i.tape.Tape)) - old(i.off) - old(i.addNext))
+//@   invariant 0 0 <= i.off && i.off <= 1<<57 && old(i.off)+old(i.addNext) <= i.off && len(i.tape.Tape) == len(old(i.tape.Tape))
 //@   decreases 0 len(i.tape.Tape) - i.off
 //@   alias dst i
 //@   safe
@@ -393,7 +394,7 @@ func nullable(t Tag) bool { return isBoolOrNull(t) || isNumOrString(t) || isCont
 //@   ensures frame1: implies(isBoolOrNull(old(i.t)), forall(0, len(i.tape.Tape), func(j int) bool { return implies(j != i.off-1, i.tape.Tape[j] == old(i.tape.Tape)[j]) }))
 //@   ensures frame2: implies(isNumOrString(old(i.t)), forall(0, len(i.tape.Tape), func(j int) bool { return implies(j != i.off-1 && j != i.off, i.tape.Tape[j] == old(i.tape.Tape)[j]) }))
 //@   ensures frameC: implies(isContainerTag(old(i.t)), forall(0, len(i.tape.Tape), func(j int) bool { return implies(j < i.off-1 || j >= int(old(i.cur)), i.tape.Tape[j] == old(i.tape.Tape)[j]) }))
-//@   ensures gate: implies(!nullable(old(i.t)), result != nil && i.t == old(i.t) && i.cur == old(i.cur) && forall(0, len(i.tape.Tape), func(j int) bool { return i.tape.Tape[j] == old(i.tape.Tape)[j] }))
+//@   ensures[C13] gate: implies(!nullable(old(i.t)), result != nil && i.t == old(i.t) && i.cur == old(i.cur) && forall(0, len(i.tape.Tape), func(j int) bool { return i.tape.Tape[j] == old(i.tape.Tape)[j] }))
 //@   ensures pos: i.off == old(i.off) && len(i.tape.Tape) == len(old(i.tape.Tape))
 //@   invariant 0 i.off <= j && j <= int(old(i.cur)) && i.cur == old(i.cur) && i.off == old(i.off)
 //@   invariant 0 filled: forall(i.off, j, func(k int) bool { return i.tape.Tape[k] == uint64(TagNop)<<56|(old(i.cur)-uint64(k)) })
